@@ -99,6 +99,12 @@ func (vc *VC) staticCall(call ssa.CallInstruction, callee *ssa.Function, binding
 		args = append(args, vc.v(a))
 		argTypes = append(argTypes, a.Type())
 	}
+	// an in-place sort of a package-level table modifies what every other check sees
+	if sortingFuncs[libName(callee)] || (callee.Pkg == vc.e.pkg && sortingFuncs[callee.Name()]) {
+		for _, a := range c.Args {
+			vc.sharedWriteCheck(call.Pos(), a)
+		}
+	}
 	// at_call clauses of the enclosing loop and of the function
 	{
 		var acs []*BodyCall
@@ -452,8 +458,13 @@ func (vc *VC) libInvoke(call ssa.CallInstruction, recv Term) bool {
 	name := c.Method.Name()
 	switch {
 	case name == "Error" && len(c.Args) == 0:
-		r := vc.havocResults(call)
-		_ = r
+		// the text of an error value: errtext(e), a function of the value
+		if v := call.Value(); v != nil {
+			vc.setVal(v, sx("errtext", recv))
+			vc.gfact(Ge(sx("slen", sx("errtext", recv)), "0"))
+			return true
+		}
+		vc.havocResults(call)
 		return true
 	}
 	return false
@@ -505,7 +516,16 @@ func (vc *VC) libCall(call ssa.CallInstruction, callee *ssa.Function, args []Ter
 		strRes()
 		return true
 	case "strings.Index", "strings.IndexByte", "strings.IndexRune", "strings.LastIndex", "strings.IndexAny", "strings.LastIndexByte":
-		r := strRes()
+		var r Term
+		if name == "strings.Index" {
+			// pure: available to contracts as index(s, sub)
+			fn := sym("spec:index")
+			vc.declareFun(fn, []string{SStr, SStr}, SInt)
+			r = sx(fn, args[0], args[1])
+			vc.setVal(v, r)
+		} else {
+			r = strRes()
+		}
 		sub := "1"
 		if name == "strings.Index" || name == "strings.LastIndex" {
 			sub = sx("slen", args[1])
@@ -531,7 +551,15 @@ func (vc *VC) libCall(call ssa.CallInstruction, callee *ssa.Function, args []Ter
 		r := strRes()
 		vc.gfact(Imp(sx("nlfree", args[0]), sx("nlfree", r)))
 		return true
-	case "strings.Join", "strings.ReplaceAll", "strings.Replace", "strings.Title", "strings.ToUpper", "strings.Map":
+	case "strings.ReplaceAll":
+		r := strRes()
+		if k, ok := c.Args[1].(*ssa.Const); ok && k.Value != nil && k.Value.Kind() == constant.String && constant.StringVal(k.Value) == "\n" {
+			// every LF is replaced; CR is not produced by the Go libraries whose error texts are sanitised this way
+			vc.gfact(Imp(sx("nlfree", args[2]), sx("nlfree", r)))
+			vc.usedTrusted["strings.ReplaceAll(s, \"\\n\", x) has no line break (CR-free library texts)"] = true
+		}
+		return true
+	case "strings.Join", "strings.Replace", "strings.Title", "strings.ToUpper", "strings.Map":
 		strRes()
 		return true
 	case "strings.Split", "strings.SplitN", "strings.Fields":
@@ -566,6 +594,15 @@ func (vc *VC) libCall(call ssa.CallInstruction, callee *ssa.Function, args []Ter
 		r := strRes()
 		if name == "fmt.Errorf" || name == "errors.New" {
 			vc.gfact(Ne(sx("i_tag", r), "0"))
+			// the error's text is the formatted message / the given string
+			if name == "errors.New" {
+				vc.gfact(Eq(sx("errtext", r), args[0]))
+			} else if len(c.Args) == 2 {
+				if cond, ok := vc.nlfreeOfFormat(c.Args[0], c.Args[1]); ok {
+					vc.gfact(Imp(cond, sx("nlfree", sx("errtext", r))))
+				}
+			}
+			return true
 		}
 		vc.sprintfFacts(call, r)
 		return true
@@ -575,6 +612,20 @@ func (vc *VC) libCall(call ssa.CallInstruction, callee *ssa.Function, args []Ter
 	case "sort.Strings", "sort.Ints", "sort.Sort", "sort.Stable", "sort.Slice", "sort.SliceStable":
 		vc.havoc(vc.callModSet(call))
 		vc.havocResults(call)
+		if name == "sort.Sort" || name == "sort.Stable" {
+			// the slice handed over (boxed as sort.Interface) is sorted afterwards: issorted(s) for contracts
+			if mi, ok := c.Args[0].(*ssa.MakeInterface); ok {
+				x := mi.X
+				if ct, ok := x.(*ssa.ChangeType); ok {
+					x = ct.X
+				}
+				if _, isSlice := x.Type().Underlying().(*types.Slice); isSlice {
+					fn := sym("spec:issorted")
+					vc.declareFun(fn, []string{SSlice}, "Bool")
+					vc.gfact(sx(fn, vc.v(x)))
+				}
+			}
+		}
 		return true
 	case "utf8.RuneCountInString", "utf8.RuneCount":
 		r := strRes()
